@@ -66,8 +66,9 @@ class HandlerSystem:
         else:
             if shared is not None:
                 self.store, self._side = shared
-                self._side.execute("DELETE FROM handlers")
-                self._side.commit()
+                c = self._side if self._side is not None else self.store._persistent_conn
+                c.execute("DELETE FROM handlers")
+                c.commit()
             else:
                 path = os.path.join(str(dbdir), "handlers_%d.db" % next(evdrv._counter))
                 self.store = sq.SqliteWorkflowStore(path, single_connection=single)
